@@ -570,6 +570,27 @@ func shrink(h History, f *failure) (History, *failure) {
 			}
 			rec(0, map[string]string{}, map[string]bool{})
 		}
+		// the same for all items sharing a content (keeps duplicates duplicates)
+		for _, d := range distinctStrings(cur, func(it Item) *string { return &it.Content }) {
+			var cands []string
+			toks := contentTok.FindAllString(d, -1)
+			for k := 0; k < len(toks) && len(toks) > 1; k++ {
+				cands = append(cands, strings.Join(toks[:k], "")+strings.Join(toks[k+1:], ""))
+			}
+			cands = append(cands, contCands...)
+			for _, c := range cands {
+				if changed {
+					break
+				}
+				d, c := d, c
+				changed = try(mapItems(cur, func(it Item) Item {
+					if it.Content == d {
+						it.Content = c
+					}
+					return it
+				}))
+			}
+		}
 		// shorter contents: delete one token (a marker-like piece or a byte) at a time
 		for i := 0; i < len(cur) && !changed; i++ {
 			for j := 0; j < len(cur[i].Items) && !changed; j++ {
@@ -873,7 +894,7 @@ func (g *gen) emit(h History, class string) {
 	}
 	g.out.Count(fmt.Sprintf("renamed-files:%d", min(renamed, 4)))
 	g.out.Count(fmt.Sprintf("markers-in-files:%02d", min((nmark+4)/5*5, 30)))
-	if g.out.Evals%2503 == 1 {
+	if g.out.Evals%2503 == 40 {
 		g.out.Sample(map[string]interface{}{"history": key(h), "outcomes": outs, "response": resp})
 	}
 	f, skipped := oracle(h, outs, resp, bp)
@@ -932,6 +953,9 @@ func (g *gen) fixed() []History {
 func run(dir string, seed uint64, tier string, part, parts int) error {
 	g := &gen{r: vl.NewRng(seed*1000 + uint64(part)), out: vl.NewOut(dir)}
 	if part == 0 {
+		// the Lean negative witness (Props.C12.witness), replayed on the implementation
+		_, wresp, _ := runImpl(History{{Src: "w", Items: []Item{{Name: sp("a.go"), Content: "X"}, {Name: sp("a_1.go"), Content: "X"}, {Name: sp("a.go"), Content: "Y"}}}})
+		g.out.Count("witness-names:" + strings.Join(respNames(wresp), ","))
 		for _, h := range g.fixed() {
 			g.emit(h, "fixed")
 		}
